@@ -70,7 +70,9 @@ class Report:
         """A rule that matched fewer instances than were confirmed by hand is an analysis error."""
         self.floors.append((rule, minimum))
         have = sum(1 for o in self.obs if o.rule == rule)
-        if have < minimum:
+        # a rule that already produced a failed obligation has a verdict: a low count then is the consequence of the
+        # breakage (obligations that depend on the broken construct could not be formed), not a vacuous pass
+        if have < minimum and not any((not o.ok) for o in self.obs if o.rule == rule):
             raise AnalysisError(f"rule {rule} matched {have} instance(s), floor is {minimum}: "
                                 f"an anchor has vanished or changed shape")
 
@@ -104,7 +106,7 @@ class Report:
         # evidence is only ever written for /repo itself; runs against scratch trees (self-test, seeded variants)
         # write elsewhere so that committed evidence always describes /repo
         from .load import REPO
-        if os.path.realpath(REPO) == "/repo":
+        if os.path.realpath(REPO) == "/repo" and not os.environ.get("VERIF_SCRATCH_EVIDENCE"):
             ev_dir = os.path.join(VERIF, "evidence")
         else:
             ev_dir = os.environ.get("VERIF_EVIDENCE_DIR") or os.path.join("/tmp", "verif-evidence-scratch")
